@@ -26,6 +26,7 @@ import atexit
 VERIF = os.path.dirname(os.path.dirname(os.path.abspath(__file__)))
 SPEC_DIR = os.path.join(VERIF, 'spec')
 WORK_ROOT = os.path.join(VERIF, '.work')
+os.makedirs(WORK_ROOT, exist_ok=True)      # scratch root of every check (a fresh checkout has none)
 JAR = '/opt/veriftools/tla/tla2tools.jar:/opt/veriftools/tla/CommunityModules-deps.jar'
 
 
